@@ -61,20 +61,21 @@ type Production struct {
 
 // PackOpts bounds the packager.
 type PackOpts struct {
-	MaxTracks    int
-	MaxSegs      int
-	MaxFrags     int
-	MaxSamples   int  // per fragment per track
-	Foreign      bool // allow foreign boxes in and between fragments
-	NALVideo     bool // video payloads are length-prefixed NAL units
-	NoMeta       bool // never use metadata-only mode (payload written separately; Size() then exceeds what Encode writes, by design)
-	NoInterval   bool // never use AddSampleInterval (data parts)
-	NoEmptyTrack bool
-	AudioOnly    bool
-	BigSamples   bool
-	SplitTruns   bool // single-track fragments may carry their samples in two trun boxes (legal; built with CreateTrun/AddChild)
-	Styp         int  // 0: seeded per segment, 1: every segment, 2: never
-	MinSegs      int
+	MaxTracks       int
+	MaxSegs         int
+	MaxFrags        int
+	MaxSamples      int  // per fragment per track
+	Foreign         bool // allow foreign boxes in and between fragments
+	NALVideo        bool // video payloads are length-prefixed NAL units
+	NoMeta          bool // never use metadata-only mode (payload written separately; Size() then exceeds what Encode writes, by design)
+	NoInterval      bool // never use AddSampleInterval (data parts)
+	NoEmptyTrack    bool
+	AudioOnly       bool
+	BigSamples      bool
+	MixIntervalFull bool // single samples (AddFullSample) may follow sample intervals in one fragment
+	SplitTruns      bool // single-track fragments may carry their samples in two trun boxes (legal; built with CreateTrun/AddChild)
+	Styp            int  // 0: seeded per segment, 1: every segment, 2: never
+	MinSegs         int
 }
 
 var avcSPS, avcPPS [][]byte
@@ -284,6 +285,9 @@ func Package(r *sim.Run, o PackOpts) (*Production, error) {
 			}
 			mode = modes[t.Draw(len(modes))]
 			fr.Mode = mode
+			if mode == "interval" && o.MixIntervalFull && t.Chance(250) {
+				fr.Mode = "interval+full"
+			}
 			if multi {
 				fr.Mode += "/multi"
 			}
@@ -315,6 +319,7 @@ func Package(r *sim.Run, o PackOpts) (*Production, error) {
 				total = 1
 			}
 			left := append([]int(nil), counts...)
+			intervalDone, singles := false, false
 			newRec := func(ti int) SampleRec {
 				video := p.Tracks[ti].Media == "video"
 				rec := SampleRec{
@@ -392,6 +397,16 @@ func Package(r *sim.Run, o PackOpts) (*Production, error) {
 					left[ti] -= k
 					total -= k
 				case "interval":
+					if fr.Mode == "interval+full" && intervalDone && (singles || t.Bool()) {
+						singles = true // intervals after single samples are refused by the library (documented by a panic)
+						// the rest of this fragment's samples are added one by one after sample intervals
+						rec := newRec(ti)
+						frag.AddFullSample(mp4.FullSample{Sample: toSample(rec), DecodeTime: rec.Dts, Data: rec.Data})
+						r.Event("AddFullSample(after interval)", ti)
+						left[ti]--
+						total--
+						continue
+					}
 					k := 1 + t.Draw(left[ti])
 					si := mp4.SampleInterval{FirstDecodeTime: nextDts[ti]}
 					si.Samples = scratch[len(scratch):len(scratch)]
@@ -408,6 +423,7 @@ func Package(r *sim.Run, o PackOpts) (*Production, error) {
 					if err := frag.AddSampleInterval(si); err != nil {
 						return nil, fmt.Errorf("AddSampleInterval: %w", err)
 					}
+					intervalDone = true
 					r.Event("AddSampleInterval", ti, k)
 					left[ti] -= k
 					total -= k
